@@ -1,6 +1,381 @@
 import OtelVerif.Common.Line
 import OtelVerif.Model.C19
-/-! driver for C19 (stub) -/
-def main : IO UInt32 := do
-  IO.eprintln "drv_c19: not built yet"
-  return 2
+import OtelVerif.Model.C19Exp
+/-! driver for C19: models `c19-recv` (receiverhelper.ObsReport), `c19-scrape` (scraperhelper controllers),
+`c19-proc` (processorhelper); the exporter handler is added to the list in `main`.
+
+Every handler prints the model's `obs` lines (exact differential) and, at `end`, evaluates the property's
+executable oracle (`recvCheck` / `procCheck`, proved sound in `Props/C19.lean`) on the counters the
+IMPLEMENTATION showed. -/
+open OtelVerif OtelVerif.Line OtelVerif.C19
+
+namespace OtelVerif.Drivers.C19
+
+def parseSig : String → Option Signal
+  | "t" => some .traces
+  | "m" => some .metrics
+  | "l" => some .logs
+  | _ => none
+
+def showSig : Signal → String
+  | .traces => "traces"
+  | .metrics => "metrics"
+  | .logs => "logs"
+
+def parsePair (s : String) : Option (Nat × Nat) :=
+  match s.splitOn "/" with
+  | [a, b] => match a.toNat?, b.toNat? with
+    | some a, some b => some (a, b)
+    | _, _ => none
+  | _ => none
+
+def bySig (t m l : Nat) : Signal → Nat
+  | .traces => t
+  | .metrics => m
+  | .logs => l
+
+/-- `<t>/<t'>,<m>/<m'>,<l>/<l'>` -/
+def parseTriple (s : String) : Option ((Signal → Nat) × (Signal → Nat)) :=
+  match (s.splitOn ",").mapM parsePair with
+  | some [t, m, l] => some (bySig t.1 m.1 l.1, bySig t.2 m.2 l.2)
+  | _ => none
+
+def showTriple (a b : Signal → Nat) : String :=
+  ",".intercalate (Signal.all.map (fun s => s!"{a s}/{b s}"))
+
+def parseRecv (s : String) : Option Recv := (parseTriple s).map (fun p => { accepted := p.1, refused := p.2 })
+def showRecv (c : Recv) : String := showTriple c.accepted c.refused
+
+def setAt {α : Type} (l : List α) (i : Nat) (x : α) : List α := l.set i x
+
+/-- classify the first step of an observed receiver trace that violates the per-operation clause -/
+def recvFirstFail (area : String) (logsCtrl : Bool) : Recv → List (RecvOp × Recv) → Nat → Option String
+  | _, [], _ => none
+  | before, (op, after) :: rest, k =>
+    match recvForeign before after op with
+    | some t =>
+      let what := if logsCtrl && t == .metrics then "logs-counted-as-metric-points" else "foreign-signal-counter-moved"
+      some s!"sig=C19/{area}/{what} step={k} op={showSig op.sig}:{op.n}:err={op.err} moved={showSig t} before={showRecv before} after={showRecv after}"
+    | none =>
+      if !recvOwnB before after op then
+        -- total moved ≠ items offered: imbalance; total right but on the wrong side: wrong split
+        let moved := (after.accepted op.sig + after.refused op.sig) - (before.accepted op.sig + before.refused op.sig)
+        let what := if moved != op.n || after.accepted op.sig < before.accepted op.sig || after.refused op.sig < before.refused op.sig
+          then "accepted-plus-refused-not-offered" else "accepted-refused-split"
+        some s!"sig=C19/{area}/{what} step={k} op={showSig op.sig}:{op.n}:err={op.err} before={showRecv before} after={showRecv after}"
+      else recvFirstFail area logsCtrl after rest (k + 1)
+
+def judgeRecv (area : String) (logsCtrl : Bool) (name : String) (tr : List (RecvOp × Recv)) : List String :=
+  if recvCheck {} tr then [] else
+  match recvFirstFail area logsCtrl {} tr 0 with
+  | some f => [s!"prop {name}=FAIL {f}"]
+  | none => [s!"prop {name}=FAIL sig=C19/{area}/oracle-inconsistent"]
+
+/-! ## c19-recv -/
+
+structure RS where
+  model : List Recv := []
+  pending : Option (Nat × RecvOp) := none
+  impl : List (List (RecvOp × Recv)) := []     -- per receiver, oldest first
+  bad : Option String := none
+
+def recvHandler : Handler RS where
+  init := {}
+  onCase := fun s toks =>
+    match kvNat toks "inst" with
+    | some k => { s with model := List.replicate k {}, impl := List.replicate k [] }
+    | none => { s with bad := some "case line without inst=" }
+  onOp := fun s toks =>
+    match toks with
+    | "end" :: rest =>
+      match kvNat rest "i", (kv rest "sig").bind parseSig, kvNat rest "n", kvNat rest "err" with
+      | some i, some sig, some n, some e =>
+        match s.model[i]? with
+        | some c =>
+          let op : RecvOp := ⟨sig, n, e = 1⟩
+          let model := setAt s.model i (c.endOp op)
+          let cnt := " ".intercalate ((List.range model.length).map (fun j => s!"{j}:{showRecv (model.getD j {})}"))
+          ({ s with model := model, pending := some (i, op) },
+           [s!"obs cnt {cnt}",
+            s!"obs span name={spanSuffix sig} {acceptedKey sig}={numAccepted n (e = 1)} {refusedKey sig}={numRefused n (e = 1)} err={e}"])
+        | none => (s, ["obs bad-op"])
+      | _, _, _, _ => (s, ["obs bad-op"])
+    | _ => (s, ["obs bad-op"])
+  onObs := fun s toks =>
+    match toks with
+    | _ :: "cnt" :: rest =>
+      match s.pending with
+      | none => { s with bad := some "counters without an operation" }
+      | some (i, op) =>
+        let snaps := rest.mapM (fun tok => match tok.splitOn ":" with
+          | [j, tr] => match j.toNat?, parseRecv tr with
+            | some j, some r => some (j, r)
+            | _, _ => none
+          | _ => none)
+        match snaps with
+        | none => { s with bad := some "unparsable counters", pending := none }
+        | some snaps =>
+          if snaps.map (·.1) != List.range s.impl.length then { s with bad := some "receiver list mismatch", pending := none } else
+          -- the receiver that ran the operation sees `op`; every other receiver sees "nothing offered"
+          let impl := (List.range s.impl.length).map (fun j =>
+            let step : RecvOp := if j = i then op else ⟨op.sig, 0, false⟩
+            match snaps.lookup j with
+            | some r => s.impl.getD j [] ++ [(step, r)]
+            | none => s.impl.getD j [])
+          { s with impl := impl, pending := none }
+    | [_, "panic"] => { s with bad := some "panic" }
+    | _ => s
+  onEnd := fun s =>
+    match s.bad with
+    | some b => [s!"prop recv=FAIL sig=C19/receiver/unparsable {b}"]
+    | none =>
+      match (s.impl.flatMap (judgeRecv "receiver" false "recv")) with
+      | [] => ["prop recv=ok"]
+      | f :: _ => [f]
+
+/-! ## c19-scrape -/
+
+def parseRes (s : String) : Option ScrapeRes :=
+  match s.splitOn ":" with
+  | ["ok", i, u] => match i.toNat?, u.toNat? with
+    | some i, some u => some (.ok i u)
+    | _, _ => none
+  | ["part", i, u, f] => match i.toNat?, u.toNat?, f.toNat? with
+    | some i, some u, some f => some (.partialErr i u f)
+    | _, _, _ => none
+  | ["fail", i] => i.toNat?.map .fail
+  | _ => none
+
+structure SS where
+  ctrl : Option Ctrl := none
+  scrapers : Nat := 0
+  model : Scr := {}
+  pending : Option Tick := none
+  impl : List (RecvOp × Recv) := []       -- oldest first
+  notes : List String := []
+  bad : Option String := none
+
+def scrapeHandler : Handler SS where
+  init := {}
+  onCase := fun s toks =>
+    let ctrl := match kv toks "ctrl" with
+      | some "metrics" => some Ctrl.metrics
+      | some "logs" => some Ctrl.logs
+      | _ => none
+    match ctrl, kvNat toks "scrapers" with
+    | some c, some k => { s with ctrl := some c, scrapers := k }
+    | _, _ => { s with bad := some "case line without ctrl=/scrapers=" }
+  onOp := fun s toks =>
+    match toks, s.ctrl with
+    | "tick" :: rest, some ctrl =>
+      match (kv rest "res").bind (fun r => (r.splitOn ",").mapM parseRes), kvNat rest "sinkerr" with
+      | some res, some se =>
+        if res.length != s.scrapers then (s, ["obs bad-op"]) else
+        let t : Tick := ⟨res, se = 1⟩
+        let m := s.model.scrape ctrl.used t
+        let scr := ",".intercalate ((List.range s.scrapers).map (fun i => s!"{m.scraped i}/{m.errored i}"))
+        ({ s with model := m, pending := some t }, [s!"obs cnt {showRecv m.recv} scr={scr} other=0 sink={t.count}"])
+      | _, _ => (s, ["obs bad-op"])
+    | _, _ => (s, ["obs bad-op"])
+  onObs := fun s toks =>
+    match toks, s.ctrl with
+    | _ :: "cnt" :: tr :: rest, some ctrl =>
+      match s.pending, parseRecv tr with
+      | some t, some r =>
+        -- the operation as the property sees it: own signal, items the next consumer actually received, its result
+        let sinkN := (kvNat rest "sink").getD 0
+        let s := if sinkN != t.count then { s with notes := s.notes ++ [s!"sig=C19/scraper/forwarded-not-kept kept={t.count} received={sinkN}"] } else s
+        { s with impl := s.impl ++ [(⟨ctrl.own, sinkN, t.sinkErr⟩, r)], pending := none }
+      | _, _ => { s with bad := some "unparsable counters", pending := none }
+    | [_, "timeout"], _ => { s with bad := some "timeout" }
+    | _, _ => s
+  onEnd := fun s =>
+    match s.bad with
+    | some b => [s!"prop scrape=FAIL sig=C19/scraper/unparsable {b}"]
+    | none =>
+      match judgeRecv "scraper" (s.ctrl == some Ctrl.logs) "scrape" s.impl ++ s.notes.map (fun n => s!"prop scrape=FAIL {n}") with
+      | [] => ["prop scrape=ok"]
+      | f :: _ => [f]
+
+/-! ## c19-proc -/
+
+def parseOutcome (s : String) : Option ProcOutcome :=
+  match s.splitOn ":" with
+  | ["ok", o, e] => match o.toNat?, e.toNat? with
+    | some o, some e => some (.ok o (e = 1))
+    | _, _ => none
+  | ["err"] => some .err
+  | ["skip"] => some .skip
+  | _ => none
+
+def showRet : ProcRet → String
+  | .nil => "nil"
+  | .funcErr => "ferr"
+  | .nextErr => "nerr"
+
+structure PS where
+  model : Proc := {}
+  pending : Option ProcOp := none
+  impl : List ProcObs := []      -- oldest first
+  bad : Option String := none
+
+def showSnap (p : ProcSnap) : String := showTriple p.incoming p.outgoing
+
+def procFirstFail : ProcSnap → List ProcObs → Nat → Option String
+  | _, [], _ => none
+  | before, o :: rest, k =>
+    let ctx := s!"step={k} op={showSig o.sig}:in={o.inp}:sink={o.sink} before={showSnap before} after={showSnap o.after}"
+    match procForeign before o with
+    | some t => some s!"sig=C19/processor/foreign-signal-counter-moved moved={showSig t} {ctx}"
+    | none =>
+      if !procIncomingB before o then some s!"sig=C19/processor/incoming-not-given {ctx}"
+      else if !procOutgoingB before o then some s!"sig=C19/processor/outgoing-not-forwarded {ctx}"
+      else procFirstFail o.after rest (k + 1)
+
+def procHandler : Handler PS where
+  init := {}
+  onOp := fun s toks =>
+    match toks with
+    | "proc" :: rest =>
+      match (kv rest "sig").bind parseSig, kvNat rest "in", (kv rest "out").bind parseOutcome with
+      | some sig, some inp, some oc =>
+        let op : ProcOp := ⟨sig, inp, oc⟩
+        let (m, ret) := s.model.consume op
+        let sink := match oc with
+          | .ok o _ => toString o
+          | _ => "-"
+        ({ s with model := m, pending := some op }, [s!"obs cnt {showTriple m.incoming m.outgoing} sink={sink} ret={showRet ret}"])
+      | _, _, _ => (s, ["obs bad-op"])
+    | _ => (s, ["obs bad-op"])
+  onObs := fun s toks =>
+    match toks with
+    | _ :: "cnt" :: tr :: rest =>
+      match s.pending, parseTriple tr, kv rest "sink" with
+      | some op, some (i, o), some sk =>
+        let sink : Option (Option Nat) := if sk = "-" then some none else sk.toNat?.map some
+        match sink with
+        | some sink =>
+          { s with impl := s.impl ++ [{ sig := op.sig, inp := op.inp, sink := sink, after := { incoming := i, outgoing := o } }], pending := none }
+        | none => { s with bad := some "unparsable sink", pending := none }
+      | _, _, _ => { s with bad := some "unparsable counters", pending := none }
+    | [_, "panic"] => { s with bad := some "panic" }
+    | _ => s
+  onEnd := fun s =>
+    match s.bad with
+    | some b => [s!"prop proc=FAIL sig=C19/processor/unparsable {b}"]
+    | none =>
+      if procCheck {} s.impl then ["prop proc=ok"] else
+      match procFirstFail {} s.impl 0 with
+      | some f => [s!"prop proc=FAIL {f}"]
+      | none => ["prop proc=FAIL sig=C19/processor/oracle-inconsistent"]
+
+
+/-! ## exporter clause: model `c19-exp` (trace of the C03 runner + counters read from the real meter provider) -/
+
+def xParseIds (s : String) : Option (List Nat) :=
+  if s = "-" then some [] else (s.splitOn ",").mapM String.toNat?
+
+structure XS where
+  persistent : Bool := false
+  evs : List OtelVerif.C19.XEv := []      -- reversed
+  lateAcc : List (List Nat) := []          -- accepted after the shutdown request
+  shutReq : Bool := false
+  stored : List Nat := []
+  impl : Option (Nat × Nat × Nat) := none
+  gauges : List (Int × Int × Option Int × Int) := []
+  gaugeMissing : Bool := false
+  skipped : Bool := false
+  bad : Option String := none
+
+def expHandler : Handler XS where
+  init := {}
+  onOp := fun s toks =>
+    match toks with
+    | "cfg" :: rest =>
+      match kvNat rest "persistent", kvNat rest "queue", kvNat rest "wfr" with
+      | some p, some _, some _ => ({ s with persistent := p == 1 }, [])
+      | _, _, _ => (s, ["obs bad-op"])
+    | ["act", at_, "shutdown"] => if at_.toNat?.isSome then (s, []) else (s, ["obs bad-op"])
+    | ["act", at_, "send", rid, n] =>
+      if at_.toNat?.isSome && rid.toNat?.isSome && n.toNat?.isSome then (s, []) else (s, ["obs bad-op"])
+    | ["backend", i, d, o] =>
+      if i.toNat?.isSome && d.toNat?.isSome && o.toNat?.isSome then (s, []) else (s, ["obs bad-op"])
+    | _ => (s, ["obs bad-op"])
+  onObs := fun s toks =>
+    match toks with
+    | ["tr", "acc", _, ids] =>
+      match xParseIds ids with
+      | some is => { s with evs := .acc is :: s.evs, lateAcc := if s.shutReq then is :: s.lateAcc else s.lateAcc }
+      | none => { s with bad := some "acc" }
+    | ["tr", "rej", _, ids] =>
+      match xParseIds ids with
+      | some is => { s with evs := .rej is :: s.evs }
+      | none => { s with bad := some "rej" }
+    | ["tr", "es", c, ids] =>
+      match c.toNat?, xParseIds ids with
+      | some c, some is => { s with evs := .es c is :: s.evs }
+      | _, _ => { s with bad := some "es" }
+    | ["tr", "ee", c, f] =>
+      match c.toNat?, f.toNat? with
+      | some c, some f => { s with evs := .ee c (f == 1) :: s.evs }
+      | _, _ => { s with bad := some "ee" }
+    | ["tr", "shutreq"] => { s with shutReq := true }
+    | ["tr", "stored", ids] =>
+      match xParseIds ids with
+      | some is => { s with stored := is }
+      | none => { s with bad := some "stored" }
+    | ["tr", "gauge", "missing"] => { s with gaugeMissing := true }
+    | "tr" :: "gauge" :: rest =>
+      match kvInt rest "size", kvInt rest "cap", kv rest "expsize", kvInt rest "expcap" with
+      | some sz, some cp, some es, some ec => { s with gauges := (sz, cp, es.toInt?, ec) :: s.gauges }
+      | _, _, _, _ => { s with bad := some "gauge" }
+    | "tr" :: "builderr" :: _ => { s with skipped := true }
+    | "tr" :: _ => s
+    | "obs" :: "counters" :: rest =>
+      match kvNat rest "sent", kvNat rest "failed", kvNat rest "enq" with
+      | some a, some b, some c => { s with impl := some (a, b, c) }
+      | _, _, _ => { s with bad := some "counters" }
+    | _ => s
+  onEnd := fun s =>
+    if s.skipped then ["obs skipped"] else
+    match s.bad with
+    | some b => [s!"obs unparsable {b}", s!"prop exporter=FAIL sig=C19/exporter/unparsable {b}"]
+    | none =>
+      let t := s.evs.reverse
+      let p := OtelVerif.C19.predict t
+      let obs := s!"obs counters sent={p.sent} failed={p.failed} enq={p.enqFailed}"
+      let attempted : Nat → Bool := fun x => (OtelVerif.C19.callsOf t).any (fun c => c.2.contains x)
+      let given := (t.map (fun e => match e with | .acc is => is.length | .rej is => is.length | _ => 0)).sum
+      let stuckLate := if s.persistent then 0 else ((s.lateAcc.flatMap id).filter (fun x => !attempted x)).length
+      let stored := if s.persistent then s.stored.length else 0
+      let dblKept := if s.persistent then (s.stored.filter attempted).length else 0
+      let dblWfr := ((t.flatMap (fun e => match e with | .rej is => is | _ => [])).filter attempted).length
+      let pBal := match s.impl with
+        | none => "prop balance=FAIL sig=C19/exporter/no-counters"
+        | some (a, b, c) =>
+          let lhs := a + b + c
+          let rhs := given - stuckLate - stored
+          if lhs = rhs then "prop balance=ok"
+          else if lhs = rhs + dblKept + dblWfr then
+            if dblKept > 0 then s!"prop balance=FAIL sig=C19/exporter/shutdown-interrupted-counted-and-still-stored sent={a} failed={b} enq={c} given={given} stored={stored} twice={dblKept}"
+            else s!"prop balance=FAIL sig=C19/exporter/wait-for-result-error-counted-send-failed-and-enqueue-failed sent={a} failed={b} enq={c} given={given} twice={dblWfr}"
+          else s!"prop balance=FAIL sig=C19/exporter/imbalance sent={a} failed={b} enq={c} given={given} stored={stored} stucklate={stuckLate}"
+      let badGauge := s.gauges.find? (fun g => g.2.1 != g.2.2.2 || (match g.2.2.1 with | some e => g.1 != e | none => false))
+      let pGauge := match s.gaugeMissing, badGauge with
+        | true, _ => "prop gauges=FAIL sig=C19/exporter/gauge-missing"
+        | false, some g =>
+          if g.2.1 != g.2.2.2 then s!"prop gauges=FAIL sig=C19/exporter/capacity-gauge-not-configured-capacity got={g.2.1} want={g.2.2.2}"
+          else s!"prop gauges=FAIL sig=C19/exporter/size-gauge-not-queue-size got={g.1} want={g.2.2.1.getD 0}"
+        | false, none => "prop gauges=ok"
+      [obs, pBal, pGauge]
+
+/-- the handlers of the receiver / scraper / processor clauses -/
+def handlers : List (String × IO Unit) :=
+  [("c19-recv", run recvHandler), ("c19-scrape", run scrapeHandler), ("c19-proc", run procHandler)]
+
+end OtelVerif.Drivers.C19
+
+def main : IO UInt32 :=
+  runMulti (OtelVerif.Drivers.C19.handlers ++ [
+    ("c19-exp", run OtelVerif.Drivers.C19.expHandler)
+  ])
